@@ -462,6 +462,16 @@ def run(prop, ctx, log):
                 import runupdk
                 out += runupdk.runupd_queries(fl, 6 if thorough else 3, log, native, result)
             return out
+        if prop == "C07":
+            # "values change only while some thread is inside hot_reload (unless enhance_hot_reloading was called), and
+            # hot_reload does not return before its reloads are finished": in Local mode only a Ptr request runs a pass
+            # (mode kernel: handle_events / update_if_static idle), and the answer is sent after update_if_local (thread kernel P1)
+            import modek, threadk
+            repo = os.environ.get("VERIF_REPO", "/repo")
+            fl, text = load_functions(repo, scratch, raw=True)
+            out = modek.mode_queries(fl, 6 if thorough else 3, log, native, result)
+            out += threadk.thread_queries(repo, fl, 6 if thorough else 4, log, native, result)
+            return out
         if prop in ("C08", "C15"):
             import threadk
             repo = os.environ.get("VERIF_REPO", "/repo")
